@@ -66,6 +66,7 @@ class PropertyRun:
         self.unexpected_unreached = []
         self.force_level = None
         self._searched = set()
+        self._witnessed = {}
         self.explanation = ''
 
     # -- intake -----------------------------------------------------------------------------
@@ -140,6 +141,18 @@ class PropertyRun:
                         fail['replay'] = replayer(contract, ob['inputs'])
                     except Exception as e:  # replay trouble is not a verdict
                         fail['replay'] = {'error': f'{type(e).__name__}: {e}'}
+                ws = getattr(contract, 'native_witness', None) if contract is not None else None
+                wkey = next((k for k in ws if k in ob['name']), None) if ws else None
+                if not (fail.get('replay') or {}).get('reproduced') and wkey is not None:
+                    # the counter-model is not a replayable call; the clause has a fixed native witness program: run it
+                    if ('witness', wkey) not in self._witnessed:
+                        from .replay import run_witness
+                        self._witnessed[('witness', wkey)] = run_witness(ws[wkey])
+                    res = self._witnessed[('witness', wkey)]
+                    if res.get('violates'):
+                        fail['inputs'] = {'native_witness': wkey, 'solver_model_inputs': fail.get('inputs')}
+                        fail['replay'] = {'reproduced': True, 'observed': res,
+                                          'input_source': 'fixed native witness program of the clause (the solver model was not a replayable call)'}
                 if not (fail.get('replay') or {}).get('reproduced') and contract is not None and hasattr(contract, 'model') \
                         and rep['function'] not in self._searched:
                     # the counter-model is not a replayable call (an intermediate loop state, or values the concretiser
